@@ -51,7 +51,130 @@ fn bytes_of(v: &Json) -> Option<Vec<u8>> {
         .collect()
 }
 
+// ---- the PUBLIC extractor, behind a real server on loopback --------------------------------------------------------
+//
+// `BufferedBody::extract` takes a `RawIncomingBody`, which only a real connection can produce: a `pavex::server::Server`
+// is started once per process; its handler calls `BufferedBody::extract(head, body, BodySizeLimit::Enabled { x-limit })`
+// and answers with the JSON the in-process operation would answer. Clients: HTTP/1.1 (chunked / Content-Length) over a
+// raw socket, HTTP/2 (prior knowledge) with and without a Content-Length header.
+mod loopback {
+    use super::*;
+    use http_body_util::BodyExt;
+    use hyper::body::Incoming;
+    use hyper_util::rt::{TokioExecutor, TokioIo};
+    use pavex::Response;
+    use pavex::connection::ConnectionInfo;
+    use pavex::request::body::{BodySizeLimit, RawIncomingBody};
+    use pavex::server::{IncomingStream, Server, ServerConfiguration};
+    use std::net::SocketAddr;
+    use tokio::io::{AsyncReadExt, AsyncWriteExt};
+    use tokio::sync::OnceCell;
+
+    async fn handler(req: http::Request<Incoming>, _c: Option<ConnectionInfo>, _s: ()) -> Response {
+        let (parts, body) = req.into_parts();
+        let limit: u64 = parts.headers.get("x-limit").and_then(|v| v.to_str().ok()).and_then(|v| v.parse().ok()).unwrap_or(0);
+        let head = RequestHead::from(parts);
+        let limit = BodySizeLimit::Enabled { max_size: ByteUnit::Byte(limit) };
+        let out = match BufferedBody::extract(&head, RawIncomingBody::from(body), limit).await {
+            Ok(b) => json!({"r":"ok", "bytes": b.bytes.to_vec()}),
+            Err(ExtractBufferedBodyError::SizeLimitExceeded(e)) => json!({"r":"size-limit", "cl": e.content_length}),
+            Err(ExtractBufferedBodyError::UnexpectedBufferError(_)) => json!({"r":"buffer-err"}),
+            Err(_) => json!({"r":"other-err"}),
+        };
+        Response::ok().set_typed_body(out.to_string())
+    }
+
+    static ADDR: OnceCell<SocketAddr> = OnceCell::const_new();
+
+    async fn addr() -> SocketAddr {
+        *ADDR
+            .get_or_init(|| async {
+                let incoming = IncomingStream::bind("127.0.0.1:0".parse().unwrap()).await.unwrap();
+                let addr = incoming.local_addr().unwrap();
+                let handle = Server::new()
+                    .set_config(ServerConfiguration::new().set_n_workers(1))
+                    .listen(incoming)
+                    .serve(handler, ());
+                std::mem::forget(handle);
+                addr
+            })
+            .await
+    }
+
+    struct Data(VecDeque<Bytes>);
+    impl Body for Data {
+        type Data = Bytes;
+        type Error = std::convert::Infallible;
+        fn poll_frame(mut self: Pin<&mut Self>, _cx: &mut Context<'_>) -> Poll<Option<Result<Frame<Bytes>, Self::Error>>> {
+            Poll::Ready(self.0.pop_front().map(|b| Ok(Frame::data(b))))
+        }
+    }
+
+    async fn h1(addr: SocketAddr, raw: Vec<u8>) -> Option<String> {
+        let mut s = tokio::net::TcpStream::connect(addr).await.ok()?;
+        s.write_all(&raw).await.ok()?;
+        let mut out = Vec::new();
+        let _ = s.read_to_end(&mut out).await;
+        let text = String::from_utf8_lossy(&out).into_owned();
+        text.split("\r\n\r\n").nth(1).map(|s| s.to_string())
+    }
+
+    pub async fn run(proto: &str, limit: u64, frames: Vec<Vec<u8>>) -> Json {
+        let addr = addr().await;
+        let total: usize = frames.iter().map(|f| f.len()).sum();
+        let body = match proto {
+            "h1-chunked" => {
+                let mut raw = format!("POST / HTTP/1.1\r\nhost: x\r\nconnection: close\r\nx-limit: {limit}\r\ntransfer-encoding: chunked\r\n\r\n").into_bytes();
+                for c in frames.iter().filter(|c| !c.is_empty()) {
+                    raw.extend_from_slice(format!("{:x}\r\n", c.len()).as_bytes());
+                    raw.extend_from_slice(c);
+                    raw.extend_from_slice(b"\r\n");
+                }
+                raw.extend_from_slice(b"0\r\n\r\n");
+                h1(addr, raw).await
+            }
+            "h1-cl" => {
+                let mut raw = format!("POST / HTTP/1.1\r\nhost: x\r\nconnection: close\r\nx-limit: {limit}\r\ncontent-length: {total}\r\n\r\n").into_bytes();
+                for c in &frames {
+                    raw.extend_from_slice(c);
+                }
+                h1(addr, raw).await
+            }
+            "h2-cl" | "h2-nocl" => {
+                let Ok(stream) = tokio::net::TcpStream::connect(addr).await else { return json!({"r":"client-err"}) };
+                let Ok((mut sender, conn)) = hyper::client::conn::http2::handshake(TokioExecutor::new(), TokioIo::new(stream)).await else {
+                    return json!({"r":"client-err"});
+                };
+                tokio::spawn(conn);
+                let mut rb = http::Request::builder().method("POST").uri(format!("http://{addr}/")).version(http::Version::HTTP_2).header("x-limit", limit.to_string());
+                if proto == "h2-cl" {
+                    rb = rb.header("content-length", total.to_string());
+                }
+                let req = rb.body(Data(frames.into_iter().map(Bytes::from).collect())).unwrap();
+                match sender.send_request(req).await {
+                    Ok(resp) => match resp.into_body().collect().await {
+                        Ok(b) => Some(String::from_utf8_lossy(&b.to_bytes()).into_owned()),
+                        Err(_) => None,
+                    },
+                    Err(_) => None,
+                }
+            }
+            _ => return json!({"r":"bad-op"}),
+        };
+        match body.and_then(|b| serde_json::from_str::<Json>(&b).ok()) {
+            Some(j) => j,
+            None => json!({"r":"client-err"}),
+        }
+    }
+}
+
 pub async fn handle(req: &Json) -> Json {
+    if let Some(proto) = req.get("proto").and_then(|v| v.as_str()) {
+        let Some(limit) = req.get("limit").and_then(|v| v.as_u64()) else { return json!({"r":"bad-op"}) };
+        let Some(frames) = req.get("frames").and_then(|v| v.as_array()) else { return json!({"r":"bad-op"}) };
+        let Some(frames) = frames.iter().map(bytes_of).collect::<Option<Vec<_>>>() else { return json!({"r":"bad-op"}) };
+        return loopback::run(proto, limit, frames).await;
+    }
     let mut head = RequestHead {
         method: http::Method::POST,
         target: "/".parse().unwrap(),
